@@ -420,6 +420,13 @@ def c09(scen, rec, f):
         if single and b is not None and r["id"] == b["id"] and (b["broken"] or b["shutdown"]):
             out.append(("C09", "returned-dead", f"the instance returned was already flagged when the call began ({c})"))
         last_id = max(last_id, r["id"])
+    if rec["end"] == "quiescent":
+        # an instance that is broken or shut down and whose manager thread has ended must have no live worker left
+        # (workers started onto it afterwards would never be stopped by anybody)
+        for n, ex in enumerate(rec["final"]["ex"]):
+            if (ex["broken"] or ex["shutdown"]) and ex.get("mgr") in ("done", "none") and ex.get("alive_pids"):
+                out.append(("C09", "workers-left-behind", f"executor #{n} is {'broken' if ex['broken'] else 'shut down'}, its "
+                            f"manager thread has ended, but its workers {ex['alive_pids']} are still alive"))
     return out
 
 
